@@ -36,6 +36,13 @@ def text_cases(tier):
     if tier != 'quick':
         for t in itertools.product(TEXT_SIGMA[:24], repeat=4):
             yield 'len4 (24-point core)', ''.join(t)
+    # block-wise scanning (8-byte words): every string of length 7..10 over {a, ', "} and of length 8..9 over {a, ', LF, é}
+    for l in range(7, 11 if tier == 'quick' else 13):
+        for t in itertools.product("a'\"", repeat=l):
+            yield 'blocks len%d' % l, ''.join(t)
+    for l in (8, 9):
+        for t in itertools.product("a'\né", repeat=l):
+            yield 'blocks4 len%d' % l, ''.join(t)
     # quote choice depends on the counts of both quote kinds: every string of length 3..6 over a 6-symbol core
     for l in range(3, 7 if tier == 'quick' else 8):
         for t in itertools.product(QUOTE_CORE, repeat=l):
@@ -145,10 +152,10 @@ def run(tier, seed):
     for r in C.pmap(run_chunk, jobs):
         total.merge(r)
     total.extra['delta_set_size'] = len(load_delta())
-    rule = ('text: every Unicode scalar value as a 1-char string + every string of length<=%d over a %d-point class alphabet + every string of length 3..%d over {\', ", backslash, a, é, LF} (quote choice); bytes: every '
+    rule = ('text: every Unicode scalar value as a 1-char string + every string of length<=%d over a %d-point class alphabet + every string of length 3..%d over {\', ", backslash, a, é, LF} (quote choice) + every string of length 7..%d over {a, \', "} and 8..9 over {a, \', LF, é} (block-wise scanning); bytes: every '
             'byte string of length<=%d + every string of length<=%d over a 12-byte alphabet; each through UnicodeEscape/AsciiEscape::new_repr, '
             'the result fed to CPython ast.literal_eval and to the real Constant::parse; non-trivial = the value needs at least one escape '
-            '(changed()); distinct = distinct value' % (2 if tier == 'quick' else 3, len(TEXT_SIGMA), 6 if tier == 'quick' else 7, 2 if tier == 'quick' else 3, 3 if tier == 'quick' else 4)
+            '(changed()); distinct = distinct value' % (2 if tier == 'quick' else 3, len(TEXT_SIGMA), 6 if tier == 'quick' else 7, 10 if tier == 'quick' else 12, 2 if tier == 'quick' else 3, 3 if tier == 'quick' else 4)
             + ('' if tier == 'quick' else '; text of length 4 over the first 24 points of the class alphabet'))
     return C.finish(PROP, tier, seed, t0, total, rule,
                     ['CPython 3.11 repr/ast.literal_eval define the reference',
